@@ -54,11 +54,15 @@ type logProxy struct {
 	node  *Node
 	inner messages.Log
 	fail  atomic.Bool
+	slow  atomic.Int64 // virtual delay (ns) before every append: a node that answers late rather than not at all
 }
 
 func (l *logProxy) Close() error { return l.inner.Close() }
 func (l *logProxy) Append(p *packet.Publish) error {
 	var err error
+	if d := l.slow.Load(); d > 0 {
+		time.Sleep(time.Duration(d))
+	}
 	if l.fail.Load() {
 		err = errors.New("injected log write failure")
 	} else {
@@ -145,6 +149,10 @@ func (h *harnessAuth) Authenticate(ctx context.Context, m auth.ApplicationContex
 	}
 	h.w.sessionCounter++
 	id := fmt.Sprintf("s%d", h.w.sessionCounter)
+	if strings.HasPrefix(user, "sid:") { // a backend that issues stable session identifiers
+		id = strings.TrimPrefix(user, "sid:")
+		user = ""
+	}
 	mp := auth.DefaultMountPoint
 	if strings.HasPrefix(user, "mp:") {
 		mp = strings.TrimPrefix(user, "mp:")
@@ -171,6 +179,7 @@ func (t *harnessTransport) Call(id uint64, f func(*grpc.ClientConn) error) error
 	w := t.w
 	w.mu.Lock()
 	blocked := w.unreachable[[2]uint64{t.from.ID, id}]
+	shutdown := w.shutdownOnCall[t.from.ID]
 	var target *Node
 	for _, n := range w.Nodes {
 		if n.ID == id {
@@ -180,6 +189,11 @@ func (t *harnessTransport) Call(id uint64, f func(*grpc.ClientConn) error) error
 	w.mu.Unlock()
 	var err error
 	switch {
+	case shutdown:
+		if t.from.cancel != nil {
+			t.from.cancel() // the node is being stopped while this call is in flight
+		}
+		err = context.Canceled
 	case blocked:
 		err = errors.New("injected: peer unreachable")
 	case target == nil || target.Dead:
@@ -274,6 +288,7 @@ type World struct {
 	SessionOf      map[string]string
 
 	unreachable map[[2]uint64]bool
+	shutdownOnCall map[uint64]bool
 	LogEvents   []LogEvent
 	RPCEvents   []RPCEvent
 
@@ -332,7 +347,7 @@ var AuthOverride wasp.AuthenticationHandler
 func NewWorld(t *testing.T, n int, opts ...NodeOpts) *World {
 	dir := filepath.Join(scratchBase(), fmt.Sprintf("world-%d-%d", os.Getpid(), worldCounter.Add(1)))
 	os.MkdirAll(dir, 0o755)
-	w := &World{T: t, Dir: dir, SessionOf: map[string]string{}, unreachable: map[[2]uint64]bool{}, GossipAuto: true, lastClockBy: map[int64]int64{}}
+	w := &World{T: t, Dir: dir, SessionOf: map[string]string{}, unreachable: map[[2]uint64]bool{}, shutdownOnCall: map[uint64]bool{}, GossipAuto: true, lastClockBy: map[int64]int64{}}
 	w.Auth = &harnessAuth{w: w}
 	if AuthOverride != nil {
 		w.Auth = AuthOverride
@@ -561,6 +576,17 @@ func (w *World) SetUnreachable(from, to int, on bool) {
 	w.mu.Unlock()
 }
 func (w *World) FailLog(node int, on bool) { w.Node(node).Log.fail.Store(on) }
+
+// SlowLog makes every append on node take d of virtual time.
+func (w *World) SlowLog(node int, d time.Duration) { w.Node(node).Log.slow.Store(int64(d)) }
+
+// ShutdownOnCall makes the next inter-node call issued by node `from` coincide with that node's shutdown:
+// its context is cancelled while the call is in flight and the call fails with a cancellation error.
+func (w *World) ShutdownOnCall(from int, on bool) {
+	w.mu.Lock()
+	w.shutdownOnCall[uint64(from)] = on
+	w.mu.Unlock()
+}
 
 // Leave kills node id: its context is cancelled, its clients are dropped by the harness (the
 // machine is gone), and every survivor is notified through NotifyGossipLeave.
